@@ -1,12 +1,16 @@
 (* Properties_C06.v -- C06: extraction reproduces the archived tree.  Statements
    over the model of the tool (CliMain.v / CliExtract.v / CliFilter.v on
-   Reader.v and the filesystem model Fs.v).  Proved here: the wildcard semantics
-   of the member selection, and a computed instance of the whole property (a
-   read-only directory written after it was created, a file with contents, time
-   and mode, a safe link).  The general theorem (every well-formed archive) is in
-   progress (P_CliExtract.v); until then the property is decided on every run by
-   the reference oracle of the check on the real tool and the correspondence. *)
-From Lhasa Require Import Base Generated Header Fs FsRun Glob Reader CliFilter CliExtract CliMain InputStream ListOut P_ListOut.
+   Reader.v and the filesystem model Fs.v).  Proved: the wildcard semantics of the
+   member selection; the general tree theorem for plain `lha x` into a directory
+   that holds none of the archive's top-level names (extract_archive_reproduces_tree:
+   EVERY well-formed description -- nested directories listed before their contents,
+   files, safe links --, whatever the recorded permissions of the directories, yields
+   exactly the described tree: contents, modes, times, targets; proof in P_FsExtract,
+   P_ReaderExtract, P_CliExtract, P_CliTree); and a computed instance on real archive
+   bytes.  Not proved (decided on every run by the reference oracle of the check on
+   the real tool and by the correspondence): replacement of existing files under the
+   overwrite policy, options i / w=DIR, the p command, MacOS members. *)
+From Lhasa Require Import Base Generated Header Fs FsRun Glob Reader CliFilter CliExtract CliMain InputStream ListOut P_ListOut P_FsExtract P_CliExtract P_CliTree.
 Local Open Scope N_scope.
 
 (* '*' matches any run of bytes, '?' exactly one, any other byte itself (case-sensitive) *)
@@ -24,6 +28,50 @@ Proof.
     + intros (g & Hin & Hm). right. exists g. split; [exact Hin|]. apply P_ListOut.glob_correct. exact Hm.
     + intros [H|(g & Hin & Hm)]; [discriminate|]. exists g. split; [exact Hin|]. apply P_ListOut.glob_correct. exact Hm.
 Qed.
+
+(* ---- the tree theorem ----
+   item      = IFile / ILink / IDir with sub-items: the description of a tree;
+   ser       = its directory-first serialisation into headers;
+   wf_item   = names are real names (non-empty, no '/', not "." or "..", <= 255 bytes,
+               distinct per directory), paths <= 4095 bytes, links safe, modes without
+               set-id bits unless root;
+   upcoming  = the reader delivers exactly these headers, in this order, and every
+               regular member decodes to the described bytes with matching length and
+               CRC (what C01-C04 prove for well-formed streams);
+   build(s)  = the nodes described: File own mode time bytes / Link target /
+               Dir own mode time entries, modes = recorded bits (or the creation mode),
+               times = recorded stamps;
+   dir_ready = the extraction directory is owned, writable and searchable.
+   Conclusion: extract_archive returns success and the extraction directory holds its
+   old entries followed by exactly the described nodes. *)
+Theorem extract_archive_reproduces_tree :
+  forall mktime junk (f : lha_filter), f_filters f = [] ->
+  forall (u : N) (uid0 : bool), umask_ok u ->
+  forall (its : list item) (st : cli_state) (o : bool) (pm t : N) (ents : list (name * node)),
+  let s := cs_fs st in
+  Forall (wf_item u uid0 []) its -> NoDup (map iname its) ->
+  (forall c, In c (map iname its) -> lookup ents c = None) ->
+  plain_opts (cs_opts st) -> fs_umask s = u -> fs_uid0 s = uid0 ->
+  dir_ready s [] o pm t ents -> N.land pm 1024 = 0 ->
+  rinv (cs_reader st) [] -> upcoming mktime junk (cs_reader st) (flat_map ser its) ->
+  N.of_nat (sizes its) < 2 ^ 40 ->
+  exists st', extract_archive mktime junk f st = Ok (RVal true, st') /\
+    same_env s (cs_fs st') /\
+    match its with
+    | [] => cs_fs st' = s
+    | _ :: _ => fs_root (cs_fs st') = update_at (fs_root s) (fs_cwd s) (const_some (Dir o pm now (ents ++ builds u its)))
+    end.
+Proof. exact P_CliTree.extract_archive_reproduces_tree. Qed.
+
+(* reading the result: every described top-level item is found at its name with exactly
+   its described node (and recursively inside directories: extracted_sub in P_CliTree.v) *)
+Theorem extracted_items_are_there :
+  forall (u : N) (its : list item) (root : node) (cwd : phys) (o : bool) (pm : N) (ents : list (name * node)) (m0 : node),
+  node_at root cwd = Some m0 -> NoDup (map iname its) ->
+  (forall c, In c (map iname its) -> lookup ents c = None) ->
+  forall it, In it its ->
+  Fs.node_at (update_at root cwd (const_some (Dir o pm now (ents ++ builds u its)))) (cwd ++ [iname it]) = Some (build u it).
+Proof. exact P_CliTree.extracted_top. Qed.
 
 (* ---- a computed instance: directory d/ (0555, time 1262304000) listed first, then
    d/a.txt (stored, "hello world\n", 0644, time 1000000000) and the link d/l -> a.txt ---- *)
@@ -56,3 +104,5 @@ Proof. eexists. split; [vm_compute; reflexivity|]. repeat split; vm_compute; ref
 Print Assumptions glob_correct.
 Print Assumptions wildcards_select_exactly.
 Print Assumptions extraction_instance.
+Print Assumptions extract_archive_reproduces_tree.
+Print Assumptions extracted_items_are_there.
